@@ -97,6 +97,7 @@ func c15tExecN(t *testing.T, scn c15tScenario, ch *mc.Chooser) (mc.Result, [2]in
 	msg := bubble(t, func() {
 		vnet.Reset()
 		srv := redisd.New(c15Addr)
+		c15StrictStore(srv)
 		cc := &config.ClusterConfig{GroupName: "g1", LeaseTimeout: time.Duration(scn.TimeoutS) * time.Second, LeaseRenewInterval: time.Duration(scn.RenewMs) * time.Millisecond}
 		if err := config.VerifClusterFix(cc); err != nil {
 			machinery = "config fix: " + err.Error()
